@@ -646,7 +646,7 @@ def r_section_prefix(model, rep):
         ok = whole(e.loops[0][1], ("attr", S, "images")) and whole(it, cell) and e.path == [T.fmt(prefix, plat), el] \
             and e.value == ("sub", cell, el)
         ng = facts.non_gate_guards(e.ev)
-        ok = ok and all(not g[1] and g[0] == ("unary", "not", ("attr", S, "images")) for g in ng)
+        ok = ok and all(T.strip_not(g[0], g[1]) == (("attr", S, "images"), True) for g in ng)
     rep.ob("R-SECTION-PREFIX", "treeinfo.Images.serialize:every-image", ok, site=cx.site(f.node),
            msg="" if ok else "every (image, path) of every platform must be written as section[image] = path")
     g = model.own_method("treeinfo.Images", "deserialize")
@@ -661,7 +661,7 @@ def r_section_prefix(model, rep):
         sec = ("elem", ("call", ("attr", IN, "sections"), (), ()), e.loops[0][0])
         # startswith filter
         sw = [gd for gd in e.guards if T.contains(gd[0], lambda x: x[0] == "call" and x[1] == ("attr", sec, "startswith"))]
-        ok = len(sw) == 1 and sw[0] == (("unary", "not", ("call", ("attr", sec, "startswith"), (("const", prefix),), ())), False)
+        ok = len(sw) == 1 and T.strip_not(sw[0][0], sw[0][1]) == (("call", ("attr", sec, "startswith"), (("const", prefix),), ()), True)
         msg = "the reader must select exactly the sections starting with %r" % prefix
         if ok:
             plat = e.target[1][2]
@@ -848,7 +848,7 @@ def r_ti_variant_tree(model, rep):
         name = ("elem", e.loops[0][1], e.loops[0][0])
         val = ("call", ("global", "getattr"), (S, name, ("const", None)), ())
         ok = e.path == [("attr", ("attr", S, "_variant"), "_section"), name] and e.value in (val, ("call", ("global", "getattr"), (S, name), ())) \
-            and [(g[0], g[1]) for g in e.guards] == [(("cmp", ("is not",), (e.value, ("const", None))), True)]
+            and [(g[0], g[1]) for g in e.guards] == [(("cmp", ("is",), (e.value, ("const", None))), False)]
     rep.ob("R-TI-PATHS", "treeinfo.VariantPaths.serialize", ok, site=cx.site(f.node),
            msg="" if ok else "every non-None path kind must be written as [variant section]/<kind>")
     g = model.own_method("treeinfo.VariantPaths", "deserialize_1_0")
